@@ -101,7 +101,7 @@ def gen_cfg(rng, prop, tier, allow_big=True):
     thorough = tier == "thorough"
     if prop == "C20":
         family = "node"
-        menu = rng.choice((("HNode", "HSym"), ("HNode", "HAny", "HSym", "HSymMix"), ("HAny", "HSym"), ("HNode", "HSym", "HSymProp")))
+        menu = rng.choice((("HNode", "HSym"), ("HNode", "HAny", "HSym", "HSymMix"), ("HAny", "HSym"), ("HNode", "HSym", "HSymProp"), ("HNodeRO", "HSym"), ("HNodeRO", "HNode", "HSym")))
     elif prop == "C18":
         family = "node"
         menu = ("HMix",)
